@@ -9,6 +9,7 @@ CONSTANTS
   MVals = {3}
   OVals = {}
   WithDelSpace = TRUE
+  WithChild = FALSE
   OpenFindings = {}
   MaxOps = 99
   Dump = TRUE
